@@ -1,0 +1,37 @@
+//go:build verif
+
+package goja
+
+// Contracts for property C07 (arrays behave as spec arrays regardless of storage).
+
+// Assumed contract of sort.Search on a sorted index column (binary search):
+//@ func (*sparseArrayObject).findIdx
+//@   props C07
+//@   trusted
+//@   requires a != nil
+//@   requires forall j, k int :: 0 <= j && j < k && k < len(a.items) ==> a.items[j].idx < a.items[k].idx [sorted]
+//@   ensures 0 <= result && result <= len(a.items) [range]
+//@   ensures forall k int :: 0 <= k && k < result ==> a.items[k].idx < idx [below]
+//@   ensures forall k int :: result <= k && k < len(a.items) ==> a.items[k].idx >= idx [above]
+//@   assigns nothing
+
+// ArraySetLength (10.4.2.4 steps 15-17) on sparse storage: elements are deleted from the end down
+// to the new length, stopping at the first one that is not configurable; no non-configurable
+// element is ever dropped, at any boundary index.
+//@ func (*sparseArrayObject)._setLengthInt
+//@   props C07
+//@   requires a != nil && a.val != nil && a.val.runtime != nil
+//@   requires forall j, k int :: 0 <= j && j < k && k < len(a.items) ==> a.items[j].idx < a.items[k].idx [sorted]
+//@   requires forall k int :: 0 <= k && k < len(a.items) ==> a.items[k].idx < a.length [below-length]
+//@   requires a.propValueCount <= 0 ==> forall k int :: 0 <= k && k < len(a.items) ==> !specNonConfigurable(a.items[k].value) [counter]
+//@   loop 1 vars i int, l uint32, ret bool
+//@   loop 1 invariant -1 <= i && i < len(a.items) && sameslice(a.items, old(a.items)) && l >= old(l) [range]
+//@   loop 1 invariant ret && l == old(l) [still-shrinking]
+//@   loop 1 invariant forall k int :: i < k && k < len(a.items) ==> !specNonConfigurable(a.items[k].value) [dropped-are-configurable]
+//@   loop 2 vars rangeindex int, idx int, aa []sparseArrayItem
+//@   loop 2 invariant -1 <= rangeindex && rangeindex < len(aa) && sameslice(a.items, old(a.items)) && 0 <= idx && idx <= len(a.items) && sameslice(aa, a.items[idx:]) [range]
+//@   loop 2 invariant forall k int :: 0 <= k && k < idx ==> same(a.items[k].value, old(a.items[k].value)) [kept-untouched]
+//@   ensures a.length >= l [not-below-request]
+//@   ensures forall k int :: 0 <= k && k < len(old(a.items)) && old(a.items[k].idx) >= a.length ==> !old(specNonConfigurable(a.items[k].value)) [keeps-nonconfigurable]
+//@   ensures forall k int :: 0 <= k && k < len(a.items) ==> same(a.items[k].value, old(a.items[k].value)) && a.items[k].idx < a.length [kept-elements]
+//@   ensures result == (a.length == l) [result]
